@@ -75,23 +75,52 @@ class Anchors:
             if any(f["ty"]["k"] == "adt" and f["ty"]["path"].endswith("cell::Cell") and "bool" in f["ty"]["s"] for f in flds):
                 self.keycell = a["path"]
         if self.flag_adt:
+            # methods of the flag type, classified by the atomic operations they (transitively, through other methods of the
+            # flag type) perform: read = yields a bool and only loads; set / clear = writes the literal true / false
+            cand = []
             for f in F.fns:
-                if "inputs" not in f or not f["inputs"]:
+                if "inputs" not in f or not f["inputs"] or f.get("trait_item") or f["kind"] == "Closure":
                     continue
                 t0 = f["inputs"][0]
-                if not (t0["k"] == "ref" and t0["ty"]["k"] == "adt" and t0["ty"]["path"] == self.flag_adt):
-                    continue
-                if f.get("trait_item"):
-                    continue
+                if t0["k"] == "ref" and t0["ty"]["k"] == "adt" and t0["ty"]["path"] == self.flag_adt:
+                    cand.append(f)
+            by_id = {f["id"]: f for f in cand}
+
+            def atomic_ops(f, seen=None):
+                seen = seen if seen is not None else set()
+                if f["id"] in seen:
+                    return set()
+                seen.add(f["id"])
+                out = set()
                 for g, t in self._calls(f):
                     d = t["callee"]["def"]
-                    if "atomic" not in d.lower():
-                        continue
                     nm = d.split("::")[-1]
-                    if nm == "load":
-                        self.flag_fn.setdefault("read", f["path"])
-                    elif nm == "store" and len(t["args"]) >= 2 and t["args"][1]["k"] == "const":
-                        self.flag_fn.setdefault("set" if t["args"][1]["s"] == "true" else "clear", f["path"])
+                    if "atomic" in d.lower():
+                        if nm == "load":
+                            out.add("load")
+                        elif nm in ("store", "swap", "fetch_or", "fetch_and") and len(t["args"]) >= 2 and t["args"][1]["k"] == "const":
+                            val = t["args"][1]["s"] == "true"
+                            if (nm == "fetch_or" and not val) or (nm == "fetch_and" and val):
+                                continue
+                            out.add("set" if val else "clear")
+                        else:
+                            out.add("other:" + nm)
+                    else:
+                        r = t["callee"].get("resolved") if isinstance(t["callee"].get("resolved"), dict) else None
+                        cid = (r or {}).get("id") or t["callee"].get("id")
+                        if cid in by_id:
+                            out |= atomic_ops(by_id[cid], seen)
+                return out
+            self._flag_cands = cand
+            for f in cand:
+                ops = atomic_ops(f)
+                outb = f["output"].get("name") == "bool"
+                if ops == {"load"} and outb:
+                    self.flag_fn.setdefault("read", f["path"])
+                elif ops == {"set"} and not outb:
+                    self.flag_fn.setdefault("set", f["path"])
+                elif ops == {"clear"} and not outb:
+                    self.flag_fn.setdefault("clear", f["path"])
         # list helpers
         for f in F.fns:
             if f["kind"] == "Closure" or "inputs" not in f or "mir" not in f:
@@ -127,6 +156,33 @@ class Anchors:
                 # informational only (reports name the helper a finding sits in): no rule depends on these roles any more
                 self.role[f["path"]] = role
                 self.by_role.setdefault(role, f["path"])
+
+    def classify_flag_methods(self, make_interp):
+        """semantic classification (what the method does to the flag on its paths): used when the syntactic scan could not
+        tell (operands computed through helper enums etc.)"""
+        if len(self.flag_fn) == 3 or not getattr(self, "_flag_cands", None):
+            return
+        for f in self._flag_cands:
+            if not f.get("reachable") and not f.get("vis", "").startswith("pub"):
+                continue
+            try:
+                paths = make_interp().analyze(f)
+            except Exception:
+                continue
+            kinds = set()
+            for p in paths:
+                if p.kind != "ret":
+                    continue
+                ks = tuple(sorted(set(e["k"] for e in p.events if e["k"] in ("FLAG_READ", "FLAG_SET", "FLAG_CLEAR") and not e.get("via"))
+                                  | set(e["k"] for e in p.events if e["k"] in ("FLAG_SET", "FLAG_CLEAR"))))
+                kinds.add(ks)
+            outb = f["output"].get("name") == "bool"
+            if kinds == {("FLAG_READ",)} and outb:
+                self.flag_fn.setdefault("read", f["path"])
+            elif kinds == {("FLAG_SET",)} and not outb:
+                self.flag_fn.setdefault("set", f["path"])
+            elif kinds == {("FLAG_CLEAR",)} and not outb:
+                self.flag_fn.setdefault("clear", f["path"])
 
     # ---- helpers used by the rules -------------------------------------------------------------------------------
     def role_of(self, path):
